@@ -4,6 +4,7 @@
 //! per observation.  TLC validates the log against Trace_CL.tla, whose
 //! predictions come from CLProofs.tla / CLToy.tla.  The drivers never decide.
 
+mod proto;
 mod util;
 
 use sha2::digest::Digest;
@@ -51,7 +52,7 @@ where
     out.into_inner().unwrap()
 }
 
-fn guard<T>(f: impl FnOnce() -> T) -> Result<T, String> {
+pub fn guard<T>(f: impl FnOnce() -> T) -> Result<T, String> {
     catch_unwind(AssertUnwindSafe(f)).map_err(|p| {
         if let Some(s) = p.downcast_ref::<&str>() {
             s.to_string()
@@ -1153,6 +1154,18 @@ fn main() {
         }
     }
     let nkeys = nkeys.max(2);
+    if args[1] == "proto" {
+        // zkv-cl proto <report.json> --derivs <cases.ndjson>: replay of the behaviours of MC_clproto.tla
+        let cases: Vec<Value> = std::fs::read_to_string(derivs.clone().expect("--derivs cases")).unwrap().lines().filter(|l| !l.trim().is_empty()).map(|l| serde_json::from_str(l).unwrap()).collect();
+        let rep = match suite {
+            1024 => proto::run::<CL1024Sha256>(&gen_keys::<CL1024Sha256>(nkeys, 5), seed, &cases, 16),
+            2048 => proto::run::<CL2048Sha256>(&gen_keys::<CL2048Sha256>(nkeys, 5), seed, &cases, 16),
+            _ => { eprintln!("unknown suite"); std::process::exit(2); }
+        };
+        std::fs::write(&args[2], serde_json::to_string(&rep).unwrap()).unwrap();
+        println!("replayed cl cases={} checks={} mismatches={}", rep["cases"], rep["checks"], rep["mismatches"].as_array().unwrap().len());
+        return;
+    }
     let dv: Vec<Value> = derivs.map(|p| std::fs::read_to_string(p).unwrap().lines().map(|l| serde_json::from_str(l).unwrap()).collect()).unwrap_or_default();
     let mut ev: Vec<Value> = vec![];
     fn go<C: CLCiphersuite>(cmd: &str, nkeys: usize, seed: u64, thorough: bool, dv: &[Value], stride: usize, ev: &mut Vec<Value>)
